@@ -36,6 +36,7 @@ import (
 	"strconv"
 	"strings"
 	"sync"
+	"sync/atomic"
 	gotime "time"
 
 	sjson "go.starlark.net/lib/json"
@@ -82,6 +83,7 @@ type c03Obs struct {
 	BT      string  `json:"bt"`
 	Steps   int     `json:"steps"`
 	Ord     []c03Ob `json:"ord"`
+	Timeout bool    `json:"timeout,omitempty"` // the wall-clock watchdog fired: the run is not comparable
 	// structured extras, first sequential run only
 	DirL [][]any `json:"dirl,omitempty"` // [type, [names of dir(x) as byte arrays]]
 	Hash [][]any `json:"hash,omitempty"` // [bytes of s, hi16, lo16] for every trace("hash", s, hash(s))
@@ -123,6 +125,13 @@ type c03Env struct {
 	lit    map[string]int // canonical text of a pool value -> 1-based index
 	predec starlark.StringDict
 }
+
+var c03Watchdog = func() gotime.Duration {
+	if n, err := strconv.Atoi(os.Getenv("C03_WATCHDOG")); err == nil && n > 0 {
+		return gotime.Duration(n) * gotime.Second
+	}
+	return 20 * gotime.Second
+}()
 
 func seedFingerprint() string {
 	h1, _ := starlark.String("verif-seed-probe-0123456789").Hash()
@@ -549,6 +558,18 @@ func (e *c03Env) exec(p *c03Prog, th *starlark.Thread, h *c03Holder, full bool) 
 	th.SetMaxExecutionSteps(steps0 + st.budget())
 	var g starlark.StringDict
 	var err error
+	// wall-clock watchdog: the step budget does not bound the cost of one step (big-integer or
+	// string growth); a run stopped by the watchdog is marked and its program is not judged
+	done := make(chan struct{})
+	var timedOut atomic.Bool
+	go func() {
+		select {
+		case <-done:
+		case <-gotime.After(c03Watchdog):
+			timedOut.Store(true)
+			th.Cancel("c03 watchdog")
+		}
+	}()
 	func() {
 		defer func() {
 			if r := recover(); r != nil {
@@ -557,6 +578,8 @@ func (e *c03Env) exec(p *c03Prog, th *starlark.Thread, h *c03Holder, full bool) 
 		}()
 		g, err = starlark.ExecFileOptions(p.Opts.fileOptions(), th, "prog.star", p.Src, e.predec)
 	}()
+	close(done)
+	obs.Timeout = timedOut.Load()
 	obs.Steps = int(th.ExecutionSteps()-steps0) + int(st.lsteps)
 	obs.OK = err == nil
 	if err != nil {
